@@ -88,6 +88,31 @@ func buildProperty(ww *conversionVisitor, node *sourcewalk.PropertyNode) (*descr
 			Options:  &descriptorpb.FieldOptions{},
 		}
 
+		// The map<string, T> syntax has no place for options of the entry's
+		// value field, and validators only look at the map field itself: the
+		// rules of the value type belong into map.values, next to the rules
+		// of the map.
+		valueRules := proto.GetExtension(itemDesc.Options, validate.E_Field).(*validate.FieldConstraints)
+		itemDesc.Options = nil
+		if valueRules != nil || st.Map.Rules != nil {
+			mapRules := &validate.MapRules{
+				Values: valueRules,
+			}
+			if st.Map.Rules != nil {
+				mapRules.MinPairs = st.Map.Rules.MinPairs
+				mapRules.MaxPairs = st.Map.Rules.MaxPairs
+			}
+			proto.SetExtension(fieldDesc.Options, validate.E_Field, &validate.FieldConstraints{
+				Type: &validate.FieldConstraints_Map{
+					Map: mapRules,
+				},
+			})
+			ww.file.ensureImport(bufValidateImport)
+		}
+		if st.Map.Ext != nil {
+			ww.setJ5Ext(node.Source, fieldDesc.Options, "map", st.Map.Ext)
+		}
+
 	case *schema_j5pb.Field_Array:
 		if st.Array.Items == nil {
 			return nil, errors.New("missing array items")
